@@ -1054,10 +1054,28 @@ fn worker_for(focus: Focus, ctx: &Ctx) {
         Focus::C04 => "c04-simk",
     };
     ctx.explore("simk", name, case_strategy(focus), n, 2000, |c, rep| run_and_judge(focus, c, rep));
+    // real-process tier: same kind of scripted child over real kernel pipes,
+    // through the public entry points, timing-insensitive oracles only
+    let prop: &'static str = match focus {
+        Focus::C01 => "C01",
+        Focus::C02 => "C02",
+        Focus::C03 => "C03",
+        Focus::C04 => "C04",
+    };
+    crate::props::realcomm::run_real_tier(ctx, prop, ctx.tier.pick(120, 1500));
 }
 
-fn replay_for(focus: Focus, _ctx: &Ctx, _engine: &str, case: &Value) -> CaseResult {
+fn replay_for(focus: Focus, ctx: &Ctx, engine: &str, case: &Value) -> CaseResult {
     quiet_panics();
+    if engine == "real" {
+        let prop: &'static str = match focus {
+            Focus::C01 => "C01",
+            Focus::C02 => "C02",
+            Focus::C03 => "C03",
+            Focus::C04 => "C04",
+        };
+        return crate::props::realcomm::replay(ctx, prop, case);
+    }
     let c: SimkCase = serde_json::from_value(case.clone()).map_err(|e| Fail::new("bad-replay-file", e.to_string()))?;
     let mut rep = CaseReport::default();
     let r = run_and_judge(focus, &c, &mut rep);
